@@ -8,4 +8,5 @@ TARGETS = {
     'exec': dict(cfg='fib', src=['harness/exec.cpp'], cflags=f'-O1 -g1 {ASAN}', libs='-lrapidcheck'),
     'shared': dict(cfg='fib', src=['harness/shared.cpp'], cflags=f'-O1 -g1 {ASAN}', libs='-lrapidcheck'),
     'when': dict(cfg='fib', src=['harness/when.cpp'], cflags=f'-O1 -g1 {ASAN}', libs='-lrapidcheck'),
+    'wait': dict(cfg='fib', src=['harness/wait.cpp'], cflags=f'-O1 -g1 {ASAN}', libs='-lrapidcheck'),
 }
